@@ -29,6 +29,8 @@ THEOREMS = {"C04": ["apply_patch_replay", "apply_patch_verdicts", "verdicts_are_
 
 K_CTX_EPOCH = ("K-C05-context-epoch-deletion-reversed", "-R of a whole-file deletion in context format written diff -cN style (new name real, epoch time stamp, '--- 0 ----'): 'can't find file to patch', exit 2 (the deletion is only recognised from the new range, which the header scan of a context diff does not see)")
 
+K_LATE_BACKUP = ("K-C18-late-backup-plain-series", "several plain (non-git) patches for one file in one run, an earlier one applying exactly and a later one at an offset, with fuzz or with rejects (no -b, backup-if-mismatch in force): the backup is taken when the later patch is written and holds the result of the earlier ones, not the bytes from before the run")
+
 HUNK_RE = re.compile(r"^Hunk #(\d+) (succeeded|FAILED|skipped) at (-?\d+)(?: with fuzz (\d+))?(?: \(offset (-?\d+) lines?\))?\.", re.M)
 SUMMARY_RE = re.compile(r"^(\d+) out of (\d+) hunks? (FAILED|ignored)", re.M)
 
@@ -903,9 +905,14 @@ def run(prop, tier, seed):
                 lines0 = [("%s %d" % (gen.rand_text(rng, True), i_), "L") for i_ in range(rng.randint(12, 18))]
                 cur = list(lines0); text = b""; k = rng.choice([2, 2, 3])
                 spots = sorted(rng.sample(range(1, len(lines0) - 1), k))
+                # (the same series written as plain unified or context diffs: every patch is written out as soon as it has been
+                # applied, see K_LATE_BACKUP)
+                sfmt = rng.choice(["git", "git", "unified", "context"])
                 for i_ in spots:
                     ops = [(" ", l) for l in cur]; ops[i_] = ("-", cur[i_]); ops.insert(i_ + 1, ("+", (cur[i_][0] + "x", "L")))
-                    text += emit.emit_git("s/f", "s/f", gen.hunks_from_ops(ops, 1), kind="change")
+                    hs_ = gen.hunks_from_ops(ops, 1)
+                    text += (emit.emit_git("s/f", "s/f", hs_, kind="change") if sfmt == "git" else
+                             emit.emit_unified("a/s/f", "b/s/f", hs_) if sfmt == "unified" else emit.emit_context("a/s/f", "b/s/f", hs_))
                     cur = [l for o_, l in ops if o_ != "-"]
                 # the target drifts between the places the patches touch: the earlier ones apply exactly, a later one at an offset
                 drift_at = rng.choice([None, spots[0] + 2, spots[-1] - 1, 0])
@@ -914,8 +921,11 @@ def run(prop, tier, seed):
                     t0.insert(drift_at, ("drifted in", "L"))
                 o = dict(rng.choice([{}, {}, {"bim": 1}, {"posix": 1}, {"bim": 0}, {"b": 1}]))
                 o.update(p=1, i="p.diff")
+                states = []; t_ = list(t0)
+                for i_ in spots:
+                    j_ = t_.index(lines0[i_]); t_[j_] = (lines0[i_][0] + "x", "L"); states.append(emit.file_bytes(t_))
                 ser.append(dict(tree={"s": ("D", 0o755, b""), "s/f": ("R", 0o644, emit.file_bytes(t0)), "p.diff": ("R", 0o644, text)}, opts=o, umask=0o022, secs=[],
-                                orig=emit.file_bytes(t0)))
+                                orig=emit.file_bytes(t0), sfmt=sfmt, states=states))
 
             def judge_series18(s, r):
                 o = s["opts"]; out = r["stdout"].decode("latin-1"); after = tree_no_meta(r["tree"])
@@ -930,7 +940,12 @@ def run(prop, tier, seed):
                 if not due and bk is not None:
                     return "backup s/f.orig was created although none was due"
                 return None
-            _, b6, m6 = l2_family(run_, exe, ser, judge_series18, cls=lambda s, r: "series exit %d" % r["exit"])
+            r6, b6, m6 = l2_family(run_, exe, ser, judge_series18, cls=lambda s, r: "%s series exit %d" % (s["sfmt"], r["exit"]))
+            for i_, d_, rep_ in b6:
+                bk_ = tree_no_meta(r6[i_]["tree"]).get("s/f.orig")
+                # (listed in known_findings.txt) plain diffs are written out one by one: when the patch that makes the backup
+                # due is not the first for its file, the backup holds what the earlier ones left
+                rep_["late_backup_series"] = bool(ser[i_]["sfmt"] != "git" and not ser[i_]["opts"].get("b") and bk_ is not None and bk_[2] in ser[i_]["states"][:-1])
             bad += b6; mism += m6
             _, b2, m2 = l2_family(run_, exe, scns, judge_c18, cls=lambda s, r: "backup opts " + ",".join(sorted(k for k in s["opts"] if k in ("b", "B", "z", "posix", "bim", "N"))))
             bad += b2; mism += m2
@@ -942,7 +957,7 @@ def run(prop, tier, seed):
         return run_.finish()
     if prop in ("C15", "C16", "C17", "C18") and scns:
         mism += ops_family(run_, exe, scns[:(120 if q else 1500)], label=prop + " ops")
-    finish(run_, prop, bad, mism, known=(lambda d, rep: K_CTX_EPOCH if rep.get("ctx_epoch_deletion") else None))
+    finish(run_, prop, bad, mism, known=(lambda d, rep: K_CTX_EPOCH if rep.get("ctx_epoch_deletion") else K_LATE_BACKUP if rep.get("late_backup_series") else None))
     run_.cov["rule"] = "whole-program scenarios (trees, modes, bystanders, option mixes, drifted targets) run as user nobody with a private TMPDIR; each judged by the property's oracle and compared with the extracted model's run"
     if 'scns' in dir() and scns:
         run_.sample(describe(scns[0]))
